@@ -325,15 +325,13 @@ func runC18(c *Check) {
 	}
 	lg := p.MustFunc(rootPath + "/pkg/genesis.LoadGenesis")
 	{
-		g := BuildECFG(p, lg, ExpandOpts{MaxDepth: 0})
+		g := BuildECFG(p, lg, ExpandOpts{MaxDepth: 2, Stop: func(f *ssa.Function) bool {
+			pk := fnPkg(f)
+			return pk == nil || pk.Pkg.Path() != rootPath+"/pkg/genesis" || strings.HasSuffix(fnName(f), "genesis.Genesis).Validate")
+		}})
 		c.NoteGraph(g)
 		validOK := g.Select(ErrNilEdge(func(t *Term) bool { return t.IsCall("genesis.Genesis).Validate") }))
-		var succ []*Node
-		for _, x := range g.Exits {
-			if g.ExitClass(x) != rcA {
-				succ = append(succ, x)
-			}
-		}
+		succ := g.Select(g.SuccessExits())
 		if len(validOK) == 0 {
 			c.Bad("C18-R4", "LoadGenesis ⟂ validates", fnName(lg), p.Pos(lg.Pos()), "LoadGenesis does not branch on Genesis.Validate: an invalid genesis is accepted", nil)
 		} else {
@@ -649,15 +647,33 @@ func ruleLoaderReadsWrittenFile(c *Check, p *Prog) {
 		if join == nil {
 			return nil
 		}
-		for _, a := range join.Args {
-			elems := []*Term{a}
-			if a.Op == "list" {
-				elems = a.Args
-			}
-			for _, e := range elems {
-				if e.Op == "const" && strings.HasPrefix(e.Name, "\"") {
-					out = append(out, e.Name)
+		var flat func(j *Term)
+		flat = func(j *Term) {
+			for _, a := range j.Args {
+				elems := []*Term{a}
+				if a.Op == "list" {
+					elems = a.Args
 				}
+				for _, e := range elems {
+					switch {
+					case e.Op == "const" && strings.HasPrefix(e.Name, "\""):
+						out = append(out, e.Name)
+					case e.IsCall("path/filepath.Join"):
+						flat(e) // a path joined in two steps
+					}
+				}
+			}
+		}
+		flat(join)
+		return out
+	}
+	// the viper instance a receiver term stands for: the call that created it, looking through
+	// a constructor helper of the package
+	instOf := func(t *Term) map[ssa.Value]bool {
+		out := map[ssa.Value]bool{}
+		for _, l := range append(p.Alternatives(t, 2), t) {
+			if l.V != nil {
+				out[l.V] = true
 			}
 		}
 		return out
@@ -685,14 +701,26 @@ func ruleLoaderReadsWrittenFile(c *Check, p *Prog) {
 		if pk == nil || pk.Pkg.Path() != configPkg || fn.Parent() != nil || !callsNamed(fn, func(nm string) bool { return strings.HasSuffix(nm, "viper.Viper).ReadInConfig") }) {
 			continue
 		}
-		g := BuildECFG(p, fn, ExpandOpts{MaxDepth: 0})
+		g := BuildECFG(p, fn, ownPkgOpts(configPkg, 2))
 		c.NoteGraph(g)
-		for _, rd := range g.Select(func(x *Node) bool { return strings.HasSuffix(CallName(x), "viper.Viper).ReadInConfig") }) {
+		for _, rd := range g.Select(func(x *Node) bool {
+			return strings.HasSuffix(CallName(x), "viper.Viper).ReadInConfig") && x.Ctx.Depth == 0
+		}) {
 			rd := rd
 			n++
 			recv := RecvTerm(rd).String()
+			recvInst := instOf(RecvTerm(rd))
 			pins := g.Select(func(x *Node) bool {
-				if !strings.HasSuffix(CallName(x), "viper.Viper).SetConfigFile") || RecvTerm(x).String() != recv {
+				if !strings.HasSuffix(CallName(x), "viper.Viper).SetConfigFile") {
+					return false
+				}
+				same := RecvTerm(x).String() == recv
+				for v := range instOf(RecvTerm(x)) {
+					if recvInst[v] {
+						same = true
+					}
+				}
+				if !same {
 					return false
 				}
 				got := constElems(ArgTerm(x, 1))
